@@ -10,6 +10,7 @@ int g(int k) { int q[k % 3 + 1]; q[0] = k; return q[0] + 1; }
 empty !d1(int k) { int[] e = [k, 1]; !truth_is_defeat(e[0] == 1); }
 empty !d2(int k) { bool m[k % 5 + 3]; m[0] = true; !d1(k); write('2'); }
 empty !d3(int k) { int[] w = [f(k), g(k)]; !d2(k); write('3'); }
+int @y(int k) { int[] t = [k, 5]; try { !truth_is_defeat(k == 1); t[1] = 6; } stop { t[1] = 9; } return t[1]; }
 empty use(int[] a) { a[0] += 1; sink += a[0]; }
 empty use(const byte[] a) { sink += a.length; }
 '''
@@ -66,6 +67,11 @@ SHAPES = [
     # the try body allocates nothing itself; the defeat function it calls does, and is defeated while its arrays are live
     ('try_without_arrays', "ARR try { if (i % 3 == 1) { EXIT } write(','); } stop { write('t'); } write('.');"),
     ('try_without_arrays_array_after', "try { if (i % 3 == 1) { EXIT } write(','); } stop { write('t'); } ARR write('.');"),
+    # the loop body's try/stop and, in the same iteration, a call to a you-function that has a try/stop of its own (defeated or not): what the
+    # first handler needs in order to restore the frame must survive the callee's try, from one iteration to the next
+    ('try_then_you_call', "ARR try { if (i % 3 == 1) { EXIT } write(','); } stop { write('t'); } sink += @y(i % 2); write('.');"),
+    ('try_you_call_then_try', "ARR sink += @y(i % 2); try { if (i % 3 == 1) { EXIT } write(','); } stop { write('t'); } write('.');"),
+    ('try_with_you_call_inside', "ARR try { sink += @y((i + 1) % 2); if (i % 3 == 1) { EXIT } write(','); } stop { write('t'); sink += @y(1); } write('.');"),
     ('guard_break_before_array', "if (i == 5) { write('G'); break; } ARR if (i % 3 == 1) { EXIT } write('.');"),
 ]
 
@@ -74,7 +80,7 @@ def programs():
     for (an, arr), (en, ex, where), (ln, loop), (sn, shape), tryk in itertools.product(
             ARRAYS, EXITS, LOOPS, SHAPES, ('none', 'stop_inside', 'stop_around', 'undo_inside')):
         in_try = tryk != 'none'
-        if sn.startswith('try_without_arrays'):
+        if sn.startswith('try_'):
             if where != 'try' or tryk != 'none':
                 continue          # the shape brings its own try/stop: defeat exits only, no outer try
         elif where in ('try', 'tryloop') and tryk not in ('stop_inside', 'stop_around'):
